@@ -70,8 +70,13 @@ func modelPoint(o *observation) (chunks [][]byte, sch string, runner bool, cut, 
 			return rAll
 		}
 		switch {
-		case cs.Point == "kill" && cs.Phase == "running":
-			return chunks, sched(9, 4), false, 0, 0, true
+		case cs.Point == "kill" && cs.Phase == "running" && !o.Finished:
+			// on a loaded machine the runner may have finished while the node was down
+			g := 0
+			if complete(o.AtRestart.State) {
+				g = rAll - 4
+			}
+			return chunks, sched(9, 4), false, 0, g, true
 		case cs.Point == "kill":
 			return chunks, "(" + sched(9, rAll) + " ++ [true])", false, 0, 0, true
 		case cs.Runner:
@@ -125,7 +130,7 @@ func modelPoint(o *observation) (chunks [][]byte, sch string, runner bool, cut, 
 			return append(cs, pattern[:l], pattern[l:total])
 		}
 		switch {
-		case cs.Point == "kill" && cs.Phase == "running":
+		case cs.Point == "kill" && cs.Phase == "running" && !o.Finished:
 			return mirror(1), sched(9, 3), false, 0, 0, true
 		case cs.Point == "kill":
 			return chunks, sched(9, rAll), false, 0, 0, true
@@ -191,7 +196,11 @@ func addCase(sh *shared, o *observation) {
 		remote = fmt.Sprintf("(Some (%s, %s))", HxS(node), HxS("emit"))
 		types, wtype = "[]", HxS("remote")
 	}
-	sc := fmt.Sprintf("(mkSc 1 %s %s %s %s %s %s true 4242 %s)", wtype, remote, CoqBool(reach), HxS("RUNIT001"), HxS("input\n"), CoqBytesList(chunks), types)
+	// whether the daemon's in-memory copy had kept up with the runner is not observable directly; it
+	// shows when the runner died leaving the file empty: the daemon then rewrites the record from its
+	// copy, and a copy that never got past Pending makes the restart say "Pending at restart"
+	follow := !(o.Crash.Runner && strings.Contains(o.AtRestart.Detail, "Pending at restart") && o.Crash.Hit > 1)
+	sc := fmt.Sprintf("(mkSc 1 %s %s %s %s %s %s true 4242 %s %s)", wtype, remote, CoqBool(reach), HxS("RUNIT001"), HxS("input\n"), CoqBytesList(chunks), types, CoqBool(follow))
 	cp := fmt.Sprintf("(mkCp %s %s %s %s)", sch, CoqBool(runner), CoqNat(cut), CoqNat(gap))
 	again := o.Cycle2
 	if again == nil {
